@@ -181,7 +181,9 @@ impl Dictionary for MutableDictionary {
                     None
                 }
             })
-            .sorted_unstable_by_key(|a| a.1)
+            // Ties are broken by the word itself: the map iterates in a random order (per instance and
+            // per process), which must not decide which candidates survive `take` or how they are ordered.
+            .sorted_unstable_by(|a, b| a.1.cmp(&b.1).then_with(|| a.0.cmp(b.0)))
             .take(max_results)
             .map(|(word, edit_distance)| FuzzyMatchResult {
                 word,
